@@ -4,6 +4,7 @@
 From Coq Require Import Lia Sorted.
 From SV Require Import Spec.QuietSpec Proofs.QuietProofs.
 From SV Require Import Model.Sliding Proofs.TumblingProofs Proofs.TumblingComplete Proofs.SlidingProofs Proofs.SlidingComplete.
+From SV Require Import Spec.SlideSpec Proofs.TumblingSpecSound Proofs.SlidingSpecSound.
 
 (* every emitted interval is [s, s+size) with s a multiple of the slide, and holds only rows that
    were added with a timestamp inside it (slide dividing size or not, slide = size, slide > size) *)
@@ -67,6 +68,34 @@ Theorem C08_tick_redelivers_skipped_watermark : forall c base h,
 Proof. exact sliding_quiet. Qed.
 Print Assumptions C08_tick_redelivers_skipped_watermark.
 
+(* the executable checker the harness applies to the real sliding window's trace (Spec/SlideSpec.v chk_C08 = schk_trace)
+   accepts EVERY trace of the model.  Clauses: every batch is [s, s+size) with s a multiple of the slide holding only
+   its own rows (SMembership), all of them added before (SUnknownRow); no interval is delivered twice when
+   ALLOWEDLATENESS <= 0 (STwice); first firings come in increasing order (SOrder); no interval starts before the
+   slide-aligned start of the earliest on-time row (STooEarlyStart); no firing unless a watermark >= its end is being
+   handled (SEarlyFire), the watermarks received being (an accepted timestamp) - ooo and strictly increasing
+   (SWatermarkOrigin); every first firing holds every on-time row inside its interval (SRowMissing); when a watermark has
+   been handled, every covering interval (from the first on-time start on) of every on-time row that ended before it has
+   been delivered with the row inside (SIntervalLost); a re-delivery is the previous contents of that interval followed by
+   rows not in it, the late row just added among them (SLateUpdateShape); a late row inside fired intervals the
+   watermark has not yet closed is followed by the re-delivery of each of them (SLateUpdateMissing).
+   For all configurations with slide > 0, size > 0, ooo >= 0 and ANY ALLOWEDLATENESS (slide dividing the size or not,
+   slide = size, slide > size i.e. gaps), all histories of atomic steps (every interleaving of the ingest goroutine,
+   the ticker and the trigger goroutine) with distinct row ids, non-negative timestamps (far-future ones included) and
+   one wall clock. *)
+Theorem C08_model_passes_checker : forall c base h,
+  0 < sslide c -> 0 < ssize c -> 0 <= sooo c ->
+  Forall (hist_op_ok base) h -> NoDup (hids h) -> chk_C08 c base (snd (srun c sst0 h)) = None.
+Proof. intros c base h Hs Hz Ho. exact (sliding_model_passes_checker c base Hs Hz Ho h). Qed.
+Print Assumptions C08_model_passes_checker.
+
+(* the instance ALLOWEDLATENESS = 0 (then no Add ever emits a batch and the last two clauses are vacuous) *)
+Theorem C08_model_passes_checker_lateness0 : forall c base h,
+  0 < sslide c -> 0 < ssize c -> 0 <= sooo c -> slateness c = 0 ->
+  Forall (hist_op_ok base) h -> NoDup (hids h) -> chk_C08 c base (snd (srun c sst0 h)) = None.
+Proof. intros c base h Hs Hz Ho. exact (sliding_model_passes_checker_lat0 c base Hs Hz Ho h). Qed.
+Print Assumptions C08_model_passes_checker_lateness0.
+
 (* non-vacuity: size 10, slide 5; an on-time row older than the first row's slot (the repaired
    defect) brings in the two earlier intervals; the row 1012 is in both intervals covering it *)
 Definition ex_scfg : scfg := {| ssize := 10; sslide := 5; sooo := 20; slateness := 0 |}.
@@ -78,3 +107,20 @@ Example C08_example :
     {| b_start := 1005; b_end := 1015; b_rows := [(1, 1012); (3, 1014)]; b_late := false |};
     {| b_start := 1010; b_end := 1020; b_rows := [(1, 1012); (3, 1014)]; b_late := false |} ].
 Proof. vm_compute. reflexivity. Qed.
+
+(* non-vacuity of C08_model_passes_checker for ALLOWEDLATENESS > 0: size 10, slide 5, lateness 20; the late row 1016
+   lies in two fired intervals that are still open, both are re-delivered with it and the checker accepts the trace;
+   the same trace with the second re-delivery removed is rejected (SLateUpdateMissing), so the clause is not vacuous *)
+Definition ex_scfg_late : scfg := {| ssize := 10; sslide := 5; sooo := 0; slateness := 20 |}.
+Definition ex_late_hist : list op :=
+  [Add 1 1012 0; Add 2 1017 0; Add 3 1031 0; DeliverBegin; FireStep; DeliverBegin; FireStep; DeliverBegin; FireStep;
+   FireStep; FireStep; Add 4 1016 0; DeliverBegin].
+Example C08_late_example :
+  batches (snd (srun ex_scfg_late sst0 ex_late_hist)) =
+  [ {| b_start := 1010; b_end := 1020; b_rows := [(1, 1012); (2, 1017)]; b_late := false |};
+    {| b_start := 1015; b_end := 1025; b_rows := [(2, 1017)]; b_late := false |};
+    {| b_start := 1010; b_end := 1020; b_rows := [(1, 1012); (2, 1017); (4, 1016)]; b_late := true |};
+    {| b_start := 1015; b_end := 1025; b_rows := [(2, 1017); (4, 1016)]; b_late := true |} ]
+  /\ chk_C08 ex_scfg_late 0 (snd (srun ex_scfg_late sst0 ex_late_hist)) = None
+  /\ chk_C08 ex_scfg_late 0 (removelast (removelast (snd (srun ex_scfg_late sst0 ex_late_hist))) ++ [EvD0]) = Some SLateUpdateMissing.
+Proof. vm_compute. repeat split. Qed.
